@@ -383,6 +383,11 @@ class Recorder:
                 self.ev("R", a, None, a, line, what=f"{self.label(a)} -> {getattr(f, '__name__', '?')}()")
 
     def cf(self, f, line, *args, **kwargs):
+        if id(f) in self.shared and not isinstance(f, (types.FunctionType, type)):
+            # a stateful callable object held in a module global (functools.lru_cache wrapper, partial over a
+            # mutable object, instance with __call__): opaque - calling it may read and update its state
+            self.ev("R", f, None, f, line, what=f"{self.label(f)}()")
+            self.ev("W", f, None, _MISSING, line, what=f"{self.label(f)}()")
         self._args_read(f, args, kwargs, line)
         return f(*args, **kwargs)
 
